@@ -20,7 +20,7 @@ MANTS = ["0", "1", "-1", "1.50", "0.1", "1e3", "1E+3", "123456789.123456789", "1
 INTS = [0, 1, -1, 2**31, -(2**31), 2**63 - 1, -(2**63) + 1]
 FLOATS = [0.1, 1e-9, 1 / 3, 1e22, 5e-324, 2.5, -1.75e-12]
 NUMSTR = ["5", "-5", "+5", "1.5", "1e3", "1E-9", ".5", "5.", "0.000000000000000000000000000001", "123456789012345678901234567890"]
-TEXTSTR = ["w/5", "11*l", "abc", "1k", "a b", "sim_param_width", "x=1"]
+TEXTSTR = ["w/5", "11*l", "abc", "1k", "a b", "sim_param_width", "x=1", " w/5", "w/5 ", " a  b "]  # text is kept to the character
 VPULSE_MAP = {"delay": "td", "rise": "tr", "fall": "tf", "width": "tpw", "period": "tper", "v1": "v1", "v2": "v2"}
 
 
@@ -255,6 +255,32 @@ def _ext_case(item):
     return ("ok", obs[0] if obs else "absent")
 
 
+def _ext_vpulse(vals):
+    """An external module whose parameter class happens to be the pulse source's: its parameter names are *its own*
+    (the documented renaming applies to the ideal primitive only)."""
+    import hdl21 as h
+
+    try:
+        e = h.ExternalModule(name="EP", port_list=[h.Port(name="a"), h.Port(name="b")], paramtype=h.primitives.PulseVoltageSourceParams, domain="hv")
+        kw = dict(zip(("delay", "v1", "v2", "period", "rise", "fall", "width"), vals))
+        m = h.Module(name="T")
+        sa, sb = m.add(h.Signal(name="sa")), m.add(h.Signal(name="sb"))
+        m.add(h.Instance(name="x", of=e(**kw))(a=sa, b=sb))
+        pkg = h.to_proto(m)
+    except Exception as ex:
+        return ("raised", short_exc(ex))
+    params = {p.name: p.value for p in pkg.modules[-1].instances[0].parameters}
+    for k, v in kw.items():
+        if k not in params:
+            return ("bad", f"parameter {k!r} of an external module exported as {sorted(params)}")
+        obs = observed(params[k])
+        if obs[0] != "num" or obs[1] != Fraction(v):
+            return ("bad", f"parameter {k!r}={v} exported as {show(obs)}")
+    if set(params) - set(kw) - {"ac"} - set(VPULSE_MAP):
+        return ("bad", f"unexpected parameters {sorted(set(params) - set(kw))}")
+    return ("ok", "num")
+
+
 def _scalar_case(spec):
     import hdl21 as h
     from hdl21.scalar import to_scalar
@@ -315,6 +341,8 @@ def run(ctx):
     res = ctx.pmap(_ext_case, ext_items, chunk=100)
     for it, r in zip(ext_items, res):
         account(ctx, "external:" + it[0], "E", "p", it[1], r)
+    for vals in ((1, 2, 3, 4, 5, 6, 7), (0, 0, 1, 8, 2, 3, 4), (7, 6, 5, 4, 3, 2, 1)):
+        account(ctx, "external:vpulse_params", "EP", "*", ("int", str(vals)), _ext_vpulse(vals))
     sc_items = [v for v in sv]
     res = ctx.pmap(_scalar_case, sc_items, chunk=100)
     for it, r in zip(sc_items, res):
@@ -352,6 +380,10 @@ def replay(body):
     if c["where"] == "primitive":
         kind = [k for (p, f, k, o) in field_plan() if p == c["primitive"] and f == c["field"]][0]
         r = _prim_case((c["primitive"], c["field"], kind, spec))
+    elif c["where"] == "external:vpulse_params":
+        import ast
+
+        r = _ext_vpulse(ast.literal_eval(spec[1]))
     elif c["where"].startswith("external"):
         r = _ext_case((c["where"].split(":")[1], spec))
     else:
